@@ -172,15 +172,23 @@ func (sc *c13Scenario) Run(s *simrt.Sim) {
 		case "now":
 			reply(r, ask)
 		case "inline":
+			if r.spec.Timeout > 0 && r.spec.Latency > r.spec.Timeout {
+				s.Fault("reply-later-than-timeout")
+			}
 			s.Sleep(r.spec.Latency)
 			reply(r, ask)
 		case "async":
+			if r.spec.Timeout > 0 && r.spec.Latency > r.spec.Timeout {
+				s.Fault("reply-later-than-timeout")
+			}
 			s.Go(fmt.Sprintf("replier%d", r.msg), func() {
 				s.Sleep(r.spec.Latency)
 				reply(r, ask)
 			})
 		case "never":
+			s.Fault("request-never-answered")
 		case "reply-then-close":
+			s.Fault("actor-closes-after-replying")
 			// the graceful-stop idiom: answer the last question, then close oneself
 			reply(r, ask)
 			self.Close()
